@@ -184,7 +184,7 @@ def b_terms(job):
             key = [i]
         checked += 1 if mon else 0
         events.append({"e": "mk", "op": op, "args": [items[a] for a in args], "key": key, "res": res, "ref": ref, "neq": neq,
-                       "mon": bool(mon), "x": o["x"], "kids": o["kids"], "s": o["t"]["t"]})
+                       "mon": bool(mon), "x": o["x"], "kids": o["kids"], "s": tb.sort(ref) + ": " + o["t"]["t"]})
     # grid: values of the variables, interpretations of the function symbols
     def nv(q, s): return tb.num(q, s)
     ca = tb.constarr(A, nv(0, INT))
